@@ -421,6 +421,14 @@ Definition split_whitespace (s : list N) : list (list N) := cons_word (words_aux
 
 Definition to_lower (b : N) : N := if (65 <=? b) && (b <=? 90) then b + 32 else b.
 
+(* a word the ASCII format can carry: non-empty, ASCII, no white space (what is assumed of the
+   text std's Display prints for an f64; what the decimal integers satisfy) *)
+Definition ws_byte (b : N) : bool := ((9 <=? b) && (b <=? 13)) || (b =? 32).
+Definition word_byte (b : N) : bool := (b <? 128) && negb (ws_byte b).
+Definition word_okb (w : list N) : bool :=
+  match w with [] => false | _ => forallb word_byte w end.
+Definition word_ok (w : list N) : Prop := word_okb w = true.
+
 (* ================================================================== *)
 (* format sniffing (parser.rs test_format_*, lib.rs from_reader)        *)
 
